@@ -52,7 +52,12 @@ package influx
 //@   ensures result2 == nil && result1 == Field_Type_Int ==> int64(result0) == n
 //@   ensures result2 == nil && result1 == Field_Type_Boolean ==> (result0 == 1 || result0 == 0)
 //@   ensures (s == "t" || s == "T" || s == "true" || s == "True" || s == "TRUE") ==> (result2 == nil && result1 == Field_Type_Boolean && result0 == 1)
-//@   ensures (s == "F" || s == "false" || s == "False" || s == "FALSE") ==> (result2 == nil && result1 == Field_Type_Boolean && result0 == 0)
+//@   ensures (s == "f" || s == "F" || s == "false" || s == "False" || s == "FALSE") ==> (result2 == nil && result1 == Field_Type_Boolean && result0 == 0)
+//@   ghost vn bool = false
+//@   call IsValidNumber
+//@     requires arg0 == s
+//@     set vn = ret0
+//@   ensures [float_is_valid_number] result2 == nil && result1 == Field_Type_Float && s[len(s)-1] != 102 ==> vn
 //@   ensures result2 == nil && result1 == Field_Type_Float ==> !isNaN(result0) && !isInf(result0)
 
 // Un-escaping agrees with the escaping rules of the splitter (nextUnescapedChar treats `\,`, `\ `, `\=`
@@ -84,3 +89,17 @@ package influx
 //@ func (*unmarshalWork).Unmarshal
 //@   call scaleTimestamp
 //@     requires [precision] arg1 >= 1 && arg1 == tsMultiplier && arg0 == row.Timestamp
+
+// The number syntax accepted for float fields: [+-]? (digits [. digits?] | . digits) ([eE] [+-]? digits)?
+// as a transition table (state x character class); everything not listed is rejected. In particular an exponent
+// sign must be followed by a digit.
+//@ func init@valid_number.go
+//@   ensures [initial] transfer[1][0] == 3 && transfer[1][1] == 0 && transfer[1][2] == 5 && transfer[1][3] == 2
+//@   ensures [int_sign] transfer[2][0] == 3 && transfer[2][1] == 0 && transfer[2][2] == 5 && transfer[2][3] == 0
+//@   ensures [integer] transfer[3][0] == 3 && transfer[3][1] == 7 && transfer[3][2] == 4 && transfer[3][3] == 0
+//@   ensures [point] transfer[4][0] == 6 && transfer[4][1] == 7 && transfer[4][2] == 0 && transfer[4][3] == 0
+//@   ensures [point_without_int] transfer[5][0] == 6 && transfer[5][1] == 0 && transfer[5][2] == 0 && transfer[5][3] == 0
+//@   ensures [fraction] transfer[6][0] == 6 && transfer[6][1] == 7 && transfer[6][2] == 0 && transfer[6][3] == 0
+//@   ensures [exp] transfer[7][0] == 9 && transfer[7][1] == 0 && transfer[7][2] == 0 && transfer[7][3] == 8
+//@   ensures [exp_sign] transfer[8][0] == 9 && transfer[8][1] == 0 && transfer[8][2] == 0 && transfer[8][3] == 0
+//@   ensures [exp_number] transfer[9][0] == 9 && transfer[9][1] == 0 && transfer[9][2] == 0 && transfer[9][3] == 0
